@@ -158,17 +158,22 @@ def _server_with_parent():
 
 
 def h_push_id():
-    """server promises a user-chosen id on open parent stream 1"""
+    """server promises a user-chosen id on parent stream 1 (open, or already ended by the
+    server: then the push is refused by the parent after the id checks passed)"""
     def h():
+        ended = sym_choice('parent', ['open', 'ended-by-us']) == 'ended-by-us'
         with h2h.native():
             c, s = _server_with_parent()
+            if ended:
+                s.send_headers(1, h2h.RESP, end_stream=True)
+                s.data_to_send()
         H = _sym_parity('highest_out', 0, 4)
         Hin = _sym_parity('highest_in', 1, 1)
         _set_marks(s, H, Hin)
         pid = sym_int('promised', 1, INT31, default=6)
         symmap.linear_streams(s)
         out = models.Out(s)
-        ok = s_and(s_lt(H, pid), s_eq(pid - 2 * (pid // 2), 0))
+        ok = s_and(s_lt(H, pid), s_eq(pid - 2 * (pid // 2), 0), not ended)
         try:
             s.push_stream(1, pid, h2h.REQ)
         except h2.exceptions.ProtocolError:
